@@ -382,7 +382,10 @@ impl<Leaf: MerkleLeaf, Root: MerkleRoot, Proof: MerkleProof> MerkleTree<Leaf, Ro
     /// to the given `hash` at the given `index` in the tree corresponding to the given `root`.
     #[must_use]
     fn check_hash_proof(hash: Hash, index: usize, root: &Root, proof: &Proof) -> bool {
+        // the index has to address a leaf of a tree of the proof's height,
+        // otherwise its upper bits would be ignored and the position could be misreported
         proof.as_ref().len() <= EMPTY_ROOTS.len()
+            && index >> proof.as_ref().len() == 0
             && *Self::derive_hash_root(hash, index, proof).as_hash() == *root.as_hash()
     }
 
@@ -430,11 +433,12 @@ impl<Leaf: MerkleLeaf, Root: MerkleRoot, Proof: MerkleProof> MerkleTree<Leaf, Ro
     /// Derives the root from an element claimed to be the last leaf in its tree.
     ///
     /// Returns `None` if the proof is not well-formed, namely if either:
-    /// - it is longer than the maximum supported tree height, or
+    /// - it is longer than the maximum supported tree height,
+    /// - the index lies beyond the width of a tree of the proof's height, or
     /// - a right-sibling entry is not the canonical empty-subtree root.
     #[must_use]
     fn derive_hash_root_last(hash: Hash, index: usize, proof: &Proof) -> Option<Root> {
-        if proof.as_ref().len() > EMPTY_ROOTS.len() {
+        if proof.as_ref().len() > EMPTY_ROOTS.len() || index >> proof.as_ref().len() != 0 {
             return None;
         }
         let mut i = index;
